@@ -93,6 +93,14 @@ Theorem C07_navigate : forall b d, wf_base b -> wf_ref d \/ wf_base d ->
   spec_navigate (to_text b) (to_text d) (to_text (navigate_url b d)) = true.
 Proof. exact navigate_url_refines_rfc. Qed.
 Print Assumptions C07_navigate.
+(* stronger: wf_base has a lower-case scheme and host, and then the rendered
+   result IS the RFC target text (spec_navigate itself also accepts a result
+   that differs from the target only in the case of scheme/host, RFC 6.2.2.1,
+   because navigate lower-cases them) *)
+Theorem C07_navigate_strict : forall b d, wf_base b -> wf_ref d \/ wf_base d ->
+  spec_navigate_strict (to_text b) (to_text d) (to_text (navigate_url b d)) = true.
+Proof. exact navigate_url_refines_rfc_strict. Qed.
+Print Assumptions C07_navigate_strict.
 Example C07_navigate_ex :
   wf_base ex_base /\ wf_ref ex_ref1 /\ wf_base ex_abs /\
   to_text ex_base = codes "http://u:p@h.x:8080/b/c/../d;p/.?q=1&k#f" /\
